@@ -633,3 +633,37 @@ M('c11-q-rounded-in-post-init', 'C11', 'R11', MT,
 # negative controls verified by hand with --root (silent): `weight = q; return cls(main_type, subtype, quality=weight,
 # params=params)`; `q = float(params.pop('q').strip())`; `q_text = params.pop('q'); q = float(q_text)`; the range test
 # rewritten as `q < 0.0 or q > 1.0 or math.isnan(q)`
+
+# ----------------------------------------------------------------------- R12 consumers of a Handlers mapping ask the resolver (seeded s8-c11-1)
+_SSE = ("            sse_handler, _, _ = self.resp_options.media_handlers._resolve(\n"
+        "                MEDIA_JSON, MEDIA_JSON, raise_not_found=False\n            )\n")
+M('c11-sse-handler-by-dict-get', 'C11', 'R12', 'falcon/asgi/app.py', _SSE,
+  "            sse_handler = self.resp_options.media_handlers.get(MEDIA_JSON)\n")
+M('c11-sse-handler-by-subscript-through-local', 'C11', 'R12', 'falcon/asgi/app.py', _SSE,
+  "            handlers = self.resp_options.media_handlers\n"
+  "            sse_handler = handlers[MEDIA_JSON] if MEDIA_JSON in handlers else None\n")
+M('c11-param-as-json-handler-from-data', 'C11', 'R12', RQ,
+  "        handler, _, _ = self.options.media_handlers._resolve(\n            MEDIA_JSON, MEDIA_JSON, raise_not_found=False\n        )\n",
+  "        handler = self.options.media_handlers.data.get(MEDIA_JSON)\n", also=('C08',))
+M('c11-error-serializer-handler-by-get', 'C11', 'R12', 'falcon/app_helpers.py',
+  "        handler, _, _ = options.media_handlers._resolve(\n            preferred, MEDIA_JSON, raise_not_found=False\n        )\n",
+  "        handler = options.media_handlers.get(preferred)\n", also=('C04',))
+# negative controls verified by hand with --root (silent): `mh = self.resp_options.media_handlers; sse_handler, _, _ = mh._resolve(...)`;
+# `ro = self.resp_options; ro.media_handlers._resolve(...)[0]`; `resp.options.media_handlers._resolve(...)`; `dict(self.ws_options.
+# media_handlers)` (WebSocketOptions: a plain dict keyed by payload type); `for mt in options.media_handlers.keys()`.
+# Passing a Handlers mapping on to a helper (`_keys(options.media_handlers)`) is an unknown idiom (exit 2)
+
+# ----------------------------------------------------------------------- R13 every parsed parameter but q is matched (seeded s8-c11-2)
+_QPOP = "        try:\n            q = float(params.pop('q'))\n"
+M('c11-params-after-q-dropped', 'C11', 'R13', MT, _QPOP,
+  "        names = list(params)\n        for name in names[names.index('q') + 1 :]:\n            del params[name]\n\n" + _QPOP)
+M('c11-params-cut-at-q-by-slicing', 'C11', 'R13', MT, _QPOP,
+  "        items = list(params.items())\n        qtext = params['q']\n"
+  "        params = dict(items[: [k for k, _ in items].index('q')])\n        params['q'] = qtext\n" + _QPOP)
+M('c11-params-loop-breaks-at-q', 'C11', 'R13', MT, _QPOP,
+  "        kept = {}\n        for k, v in params.items():\n            kept[k] = v\n            if k == 'q':\n                break\n"
+  "        params = kept\n" + _QPOP)
+M('c11-q-left-among-params', 'C11', 'R13', MT, "q = float(params.pop('q'))", "q = float(params.get('q'))")
+# negative controls verified by hand with --root (silent): `params = {k: v for k, v in params.items() if k != 'q'}` (q kept aside);
+# `q = float(params['q'])` + `del params['q']`; `if params.get('q') is None: return cls(..., params=params)`;
+# `dict(itertools.islice(params.items(), 50))`
